@@ -34,6 +34,8 @@ enum LeafClass {
     AllEqual,
     PairEqual,
     Counter,
+    /// long leaves (beyond any request size) that differ only after a long common prefix
+    LongPrefix,
 }
 
 fn gen_leaves(rng: &mut Rng, n: usize, class: LeafClass, v: Version) -> Vec<Vec<u8>> {
@@ -68,6 +70,12 @@ fn gen_leaves(rng: &mut Rng, n: usize, class: LeafClass, v: Version) -> Vec<Vec<
                 b
             }
             LeafClass::Counter => vec![i as u8],
+            LeafClass::LongPrefix => {
+                let mut b = vec![0x5a; 1400 + 37 * (n % 9) + 400 * (i % 3)];
+                b.extend_from_slice(&(i as u32).to_le_bytes());
+                b.extend_from_slice(&eq);
+                b
+            }
         };
         out.push(l);
     }
@@ -301,7 +309,7 @@ pub fn run(ctx: &Ctx, out: &mut Out) {
         return;
     }
     let versions = [Version::Google, Version::RfcDraft13];
-    let classes = [LeafClass::Random, LeafClass::Nonce, LeafClass::Empty, LeafClass::AllEqual, LeafClass::PairEqual, LeafClass::Counter];
+    let classes = [LeafClass::Random, LeafClass::Nonce, LeafClass::Empty, LeafClass::AllEqual, LeafClass::PairEqual, LeafClass::Counter, LeafClass::LongPrefix];
     // (a) every leaf count 1..=255, every position, both profiles
     let mut work: Vec<(Version, usize, LeafClass)> = Vec::new();
     for v in versions {
